@@ -116,9 +116,10 @@ def marker_history(rng, cfg):
              {"op": "createfile", "name": "/" + g, "blob": 1}, {"op": "rename", "name": "/" + g, "name2": "/%s/%s" % (d, nn)},
              {"op": "chmod", "name": "/%s/%s" % (d, nn), "perm": 0o600}, {"op": "chown", "name": "/" + d, "uid": 4242, "gid": 4343},
              {"op": "writefile", "name": "/%s/%s" % (d, f), "flags": hist.O_WRONLY | hist.O_APPEND, "perm": 0o644, "blob": 2},
-             {"op": "mkdirall", "name": "/%s/x/%s" % (d, g), "perm": 0o700}, {"op": "remove", "name": "/%s/%s" % (d, nn)}, {"op": "removeall", "name": "/%s/x" % d}]
+             {"op": "mkdirall", "name": "/%s/x/%s" % (d, g), "perm": 0o700}, {"op": "remove", "name": "/%s/%s" % (d, nn)}, {"op": "removeall", "name": "/%s/x" % d},
+             {"op": "createfile", "name": "/%s/e0" % d, "blob": 3}, {"op": "mkdir", "name": "/%s/sub" % d, "perm": 0o755}]
     # blob k (seed k+1) embeds marker k
-    return {"history": {"config": cfg, "blobs": [{"seed": 1, "len": rng.choice([60, 700, 3000])}, {"seed": 2, "len": 40}, {"seed": 3, "len": 600}], "obs": [], "calls": calls},
+    return {"history": {"config": cfg, "blobs": [{"seed": 1, "len": rng.choice([60, 700, 3000])}, {"seed": 2, "len": 40}, {"seed": 3, "len": 600}, {"seed": 4, "len": 0}], "obs": [], "calls": calls},
             "markers": ms}
 
 
@@ -162,6 +163,8 @@ def c09_oracle(d):
                 fails.append(dict(kind="rebuild-succeeds-with-another-key", i=None, detail=[r.get("index"), r.get("accepted")]))
             if r.get("fetch_succeeded_for"):
                 fails.append(dict(kind="restore-succeeds-with-another-key", i=None, detail=r["fetch_succeeded_for"][:3]))
+            if r.get("restored_with_foreign_identity"):
+                fails.append(dict(kind="restore-or-read-succeeds-with-another-key", i=None, detail=r["restored_with_foreign_identity"][:4]))
     return fails
 
 
